@@ -286,6 +286,27 @@ core.bootstrap()
 from vlib import pipeline, mibgen
 corpus = json.load(open(sys.argv[1]))
 out = {}
+extra = json.load(open(sys.argv[2])) if len(sys.argv) > 2 else []
+if extra:
+    import copy
+    from vlib import fixtures
+    from pysmi.codegen.symtable import SymtableCodeGen
+    from pysmi.codegen.jsondoc import JsonCodeGen
+    from pysmi.codegen.pysnmp import PySnmpCodeGen
+    for i, text in enumerate(extra):
+        try:
+            tree = pipeline.parser('smiV1Relaxed').parse(text)[0]
+            st_ = fixtures.symtables()
+            info, s = SymtableCodeGen().genCode(tree, st_)
+            st_[info.name] = s
+            for label, gen in (('json', JsonCodeGen), ('pysnmp', PySnmpCodeGen)):
+                try:
+                    inf, txt = gen().genCode(copy.deepcopy(tree), st_, genTexts=True, comments=['c'])
+                    out['x%%d/%%s' %% (i, label)] = hashlib.sha256(txt.encode()).hexdigest()
+                except Exception as e:
+                    out['x%%d/%%s' %% (i, label)] = 'error:' + type(e).__name__ + ':' + str(e)[:60]
+        except Exception as e:
+            out['x%%d' %% i] = 'error:' + type(e).__name__
 for i, mset in enumerate(corpus):
     c = pipeline.run_set(mset, backends=('json', 'pysnmp'), genTexts=True)
     for name in sorted(c.texts):
@@ -301,6 +322,32 @@ for i, mset in enumerate(corpus):
         out['%%d/%%s/%%s/error' %% (i, k[0], k[1])] = type(e).__name__
 print(json.dumps(out, sort_keys=True))
 '''
+
+
+# hand-written texts for constructs the model-based generator does not produce (tolerated "buggy MIB" notations,
+# several imports of one module, many labels) - compiled under every hash seed together with the generated corpus
+EXTRA_TEXTS = [
+    '''HX1-MIB DEFINITIONS ::= BEGIN
+IMPORTS OBJECT-TYPE, Integer32, Counter32, enterprises FROM SNMPv2-SMI DisplayString, TruthValue, RowStatus FROM SNMPv2-TC
+  OBJECT-GROUP FROM SNMPv2-CONF OBJECT-TYPE FROM SNMPv2-SMI;
+speed OBJECT-TYPE SYNTAX INTEGER { slow(1), medium(2), fast(3), turbo(4), ludicrous(5), zero(0) } MAX-ACCESS read-write
+  STATUS current DESCRIPTION "d" DEFVAL { { turbo, slow, fast, medium } } ::= { enterprises 9 1 }
+flags OBJECT-TYPE SYNTAX BITS { a(0), b(1), c(2), d(3), e(4), f(5), g(6) } MAX-ACCESS read-write STATUS current
+  DESCRIPTION "d" DEFVAL { { g, a, c, e } } ::= { enterprises 9 2 }
+grp OBJECT-GROUP OBJECTS { speed, flags } STATUS current DESCRIPTION "g" ::= { enterprises 9 3 }
+END
+''',
+    '''HX2-MIB DEFINITIONS ::= BEGIN
+IMPORTS OBJECT-TYPE, Counter, Gauge, TimeTicks, IpAddress, NetworkAddress, enterprises, mgmt, internet FROM RFC1155-SMI
+  OBJECT-TYPE FROM RFC-1212 TRAP-TYPE FROM RFC-1215 DisplayString, PhysAddress, mib-2, sysDescr, ifIndex FROM RFC1213-MIB;
+base OBJECT IDENTIFIER ::= { enterprises 77 }
+c1 OBJECT-TYPE SYNTAX Counter ACCESS read-only STATUS mandatory ::= { base 1 }
+g1 OBJECT-TYPE SYNTAX Gauge ACCESS read-only STATUS mandatory ::= { base 2 }
+n1 OBJECT-TYPE SYNTAX NetworkAddress ACCESS read-only STATUS mandatory ::= { base 3 }
+tr TRAP-TYPE ENTERPRISE base VARIABLES { c1, g1, n1, sysDescr, ifIndex } DESCRIPTION "t" ::= 7
+END
+''',
+]
 
 
 def hashseed_sweep(ctx):
@@ -327,10 +374,13 @@ def hashseed_sweep(ctx):
         script = os.path.join(tmp, 'child.py')
         with open(script, 'w') as f:
             f.write(CHILD % {'lib': os.path.join(VERIF, 'lib')})
+        xpath = os.path.join(tmp, 'extra.json')
+        with open(xpath, 'w') as f:
+            json.dump(EXTRA_TEXTS, f)
         procs = []
         for s in seeds:
             env = dict(os.environ, PYTHONHASHSEED=str(s), TZ='UTC')
-            procs.append((s, subprocess.Popen([sys.executable, script, cpath], env=env, stdout=subprocess.PIPE, stderr=subprocess.PIPE)))
+            procs.append((s, subprocess.Popen([sys.executable, script, cpath, xpath], env=env, stdout=subprocess.PIPE, stderr=subprocess.PIPE)))
         results = {}
         for s, p in procs:
             o, e = p.communicate()
